@@ -42,6 +42,16 @@ class Box:
     b: object = 3
 
 
+@dataclasses.dataclass
+class KBox:
+    a: object
+    b: object = dataclasses.field(default=3, kw_only=True)
+
+
+class MyList(list):
+    """A list subclass: a non-collection leaf for dask.compute (it is not traversed)."""
+
+
 def tier_cfg(tier):
     return {"maxdepth": 3}
 
@@ -107,8 +117,19 @@ class Gen:
             if t.draw(4, "coll") != 0:
                 return self.collection()
             return self.leaf()
-        kind = t.draw(8, "skind")
+        kind = t.draw(10, "skind")
         n = 1 + t.draw(3, "n")
+        if kind == 8:
+            # a list-subclass leaf alone in a tuple/list, next to a collection
+            x, e = self.collection()
+            leaf = MyList([1, t.draw(5, "ml")])
+            self.desc.append(["struct", 8, 2])
+            wrap = (leaf,) if t.draw(2, "mlw") else [leaf]
+            return [wrap, x], [type(wrap)([MyList(leaf)]), e]
+        if kind == 9:
+            (x0, e0), (x1, e1) = self.node(depth + 1), self.node(depth + 1)
+            self.desc.append(["struct", 9, 2])
+            return KBox(x0, b=x1), KBox(e0, b=e1)
         if kind in (4, 5) and n < 2:
             n = 2                        # two distinct field values (an iterator is single-use)
         items = [self.node(depth + 1) for _ in range(n)]
